@@ -88,7 +88,7 @@ def outcome : Handler := fun req => do
   let names := namesIn spec
   let fieldOf (n : String) : List Char := Oas3.Client.fieldName n.toList
   let badField := names.any fun n => n.toList.all (fun c => c.toNat < 128) &&
-    (let f := fieldOf n; f == "r#crate".toList || f == "r#super".toList || f == ['_'] || (Oas3.Naming.rawPassthrough n.toList && !Oas3.Naming.legal .field n.toList))
+    (let f := fieldOf n; f == ['_'] || (Oas3.Naming.rawPassthrough n.toList && !Oas3.Naming.legal .field n.toList))
   let selfType := names.any fun n => n.toList.all (fun c => c.toNat < 128) && Oas3.Naming.toRustTypeName Oas3.Gen.prelude Oas3.Client.idTr n.toList == "r#Self".toList
   let nonAscii := names.any fun n => n.toList.any (fun c => c.toNat ≥ 128)
   let methods := (methodsIn spec).map String.toLower
